@@ -180,3 +180,81 @@ func lexTap(sm *_LexerStateMachine) func() hc.LexCfg { return nil }
 	}
 	return sb.String(), internals, stub
 }
+
+// GoType is a Go type spelled in source, with the import it needs ("" none).
+type GoType struct {
+	Expr   string
+	Import string
+}
+
+// StdPalette are imported types used to exercise import handling and type
+// spelling in generated code.
+var StdPalette = []GoType{
+	{"*bytes.Buffer", "bytes"}, {"*strings.Builder", "strings"}, {"time.Duration", "time"},
+	{"*big.Int", "math/big"}, {"*url.URL", "net/url"}, {"*list.List", "container/list"},
+	{"fmt.Stringer", "fmt"}, {"io.Reader", "io"}, {"sort.IntSlice", "sort"}, {"*regexp.Regexp", "regexp"},
+	{"int", ""}, {"[]string", ""}, {"map[string]int", ""}, {"any", ""},
+}
+
+// TypedHarness renders a harness whose rules return the given Go types (one
+// per rule) and whose actions do nothing: it is only good for generating and
+// compiling, not for running.
+func (g *Grammar) TypedHarness(types []GoType, bounds bool) string {
+	tyOf := func(t Term) string {
+		base := ""
+		switch t.Ref.Kind {
+		case KTok:
+			base = "Token"
+		case KRule:
+			base = types[t.Ref.Idx].Expr
+		case KErr:
+			base = "Error"
+		}
+		switch t.Sugar {
+		case None, Opt:
+			return base
+		}
+		return "[]" + base
+	}
+	imports := map[string]bool{}
+	for _, t := range types {
+		if t.Import != "" {
+			imports[t.Import] = true
+		}
+	}
+	var paths []string
+	for p := range imports {
+		paths = append(paths, p)
+	}
+	sort.Strings(paths)
+	var sb strings.Builder
+	sb.WriteString("package PKGNAME\n\nimport (\n\t\"batch/hc\"\n")
+	for _, p := range paths {
+		fmt.Fprintf(&sb, "\t%q\n", p)
+	}
+	sb.WriteString(")\n\ntype Token = hc.Token\n\ntype P struct {\n\tlox\n}\n\n")
+	for ri, r := range g.Rules {
+		seen := map[string]bool{}
+		for pi, p := range r.Prods {
+			params := make([]string, len(p.Terms))
+			for i, t := range p.Terms {
+				params[i] = fmt.Sprintf("a%d %s", i, tyOf(t))
+			}
+			sig := strings.Join(params, ", ")
+			key := sig
+			for i := range p.Terms {
+				key = strings.ReplaceAll(key, fmt.Sprintf("a%d ", i), "")
+			}
+			if seen[key] {
+				continue
+			}
+			seen[key] = true
+			fmt.Fprintf(&sb, "func (p *P) on_%s__p%d(%s) %s {\n\tvar z %s\n\treturn z\n}\n\n", r.Name, pi, sig, types[ri].Expr, types[ri].Expr)
+		}
+	}
+	if bounds {
+		sb.WriteString("func (p *P) _onBounds(r any, b, e Token) {}\n\n")
+	}
+	sb.WriteString("var Entry = &hc.Entry{}\n")
+	return sb.String()
+}
